@@ -13,6 +13,9 @@ from mc.lib import events
 
 ID = 'C05'
 LEVEL = 'exploration'
+# fewer non-trivial cases than this share of all cases means that the
+# exploration has become vacuous (reported as INTERNAL-ERROR, never as a pass)
+MIN_NONTRIVIAL_FRACTION = 0.5
 RULE = (
     'Finite lattice of least-squares problems for the real '
     'fit_offsets.find_offsets: EVERY presence pattern of up to 4 series x 4 '
